@@ -13,7 +13,7 @@ META = dict(
                 "append (continue the fill order) is model-checked to satisfy it and to equal the fresh layout. TLC enumerates "
                 "(base chunks n, appended chunks m, width, leaf kind, short last chunks); the real trickle.Append is run on each "
                 "pair and every resulting DAG, decoded node by node, is validated by TLC against AppendOK (thorough: all n,m<=60 "
-                "for w=2, n,m<=32 for w=3,4 + 1/5 sample of the rest; quick: exhaustive core + seed-dependent sample). Random bases and chains of appends with fixed-size and "
+                "for w=2, n,m<=24 for w=3,4 + 1/7 sample of the rest; quick: exhaustive core + seed-dependent sample). Random bases and chains of appends with fixed-size and "
                 "rabin chunkers, widths 2..16, are validated the same way. The code's own VerifyTrickleDagStructure must agree "
                 "with the spec's rule on every DAG."),
     level_note=("Trusted: mock DAGService, protobuf decoding, the projection c07Project. The appended tree is not required to equal "
@@ -28,7 +28,7 @@ def run(ctx):
     ctx.assumptions += ["mock DAGService (merkledag over MapDatastore) is a correct block map",
                         "protobuf / UnixFS decoding of a stored node is faithful"]
     ctx.cov["rule"] = ("G: one case per (width, leaf kind, n base chunks, m appended chunks, short last chunk of base / of the "
-                       "appended data), enumerated by TLC; thorough = all n,m<=60 for w=2, all n,m<=32 for w=3,4, 1/5 of the rest; quick = the full "
+                       "appended data), enumerated by TLC; thorough = all n,m<=60 for w=2, all n,m<=24 for w=3,4, 1/7 of the rest; quick = the full "
                        "product n<=16, m<=12 for w=2 and n<=8, m<=12 for w=3,4 plus a 1/151 seed-dependent sample of the rest up to 60x60. Each case = one real Append whose "
                        "projected tree is decided by TLC (AppendOK). T: random base + chain of 1..4 appends. "
                        "non-trivial = the base already has sub-trickles (n > w) so the append path descends")
@@ -36,7 +36,7 @@ def run(ctx):
     ctx.specdir(SPEC)
     cfg = c07.write_gen_cfg(ctx, "gen_append.cfg", Kind='"append"', GN=60, GM=60, GWidths=c07.tset([2, 3, 4]),
                             PartSel=ctx.seed % 7, SmallN=16 if q else 60, SmallM=12 if q else 60, SmallW=2,
-                            Small2N=8 if q else 32, Small2M=12 if q else 32, SampleMod=151 if q else 5, Salt=ctx.seed)
+                            Small2N=8 if q else 24, Small2M=12 if q else 24, SampleMod=151 if q else 7, Salt=ctx.seed)
     _, cases, binp = c07.parallel(
         lambda: ctx.tlc_mc(SPEC, "MCUnixFSFile.tla", "MCUnixFSFile.cfg" if q else "MCUnixFSFileBig.cfg", timeout=2400,
                            coverage=not q, workers=4 if q else 10),
